@@ -54,6 +54,14 @@ CHECKS.update({
    "Reader, snapper, router and N writer goroutines (N=1..5) with fake targets whose handling and final write are separately scheduled steps: no deadlock, no panic (send on closed, double close, negative wait group), no early return (every target finished its final write when ProcessFeatures returns; the caller's table switch is not observed), no leak, no drop/dup/reorder. One outcome per scenario expected and reported.",
    "Trusted: scheduler model; memory-model effects only through the sampled free-running -race pass (1800 runs, GOMAXPROCS 1/2/16, streams up to 200), reported separately in the evidence.", "3/C11"),
 })
+CHECKS.update({
+ "C12": ("gpkgmc", "exhaustive enumeration of a finite lattice of (page size, feature count, content pattern, schema, geometry type) through the real TargetGeopackage on real SQLite files, read back with SQL and compared with the list of features handed over",
+   "Page sizes 1..3 (thorough 6) x counts 0..3p+1 x all content sequences over {small, extent-extending, empty} up to length 5 and all placements of <= 2 special features beyond x two schemas (geometry column in the middle, NULL patterns) x polygon/multipolygon/point: rows, order, attributes, geometry, spatial index entries, recorded extent, table definition and SRS.",
+   "Trusted: the spatialite driver stub (plain SQLite + pure-Go ST_ functions) stands in for libspatialite; a log.Fatal inside texel is reported as a violation with the case that was running.", "3/C12"),
+ "C13": ("gpkgmc", "exhaustive enumeration of a union of fully enumerated sub-lattices of invocations of the real texel binary (built from the working tree with the driver stub by overlay) on generated source GeoPackages; every produced file compared table by table, row by row with a reference computed by the library from the decoded source rows",
+   "Id lists (single, descending, three, duplicates) x keep x reverse x page sizes; all 8 flag combinations via command line and environment, with and without an outside-grid feature; 5 target path shapes x fresh/overwrite/pre-existing+overwrite; a family of 172 (thorough 516) sources (every sequence of <= 2 polygon kinds x multipolygon kinds, line/point tables); exact file set, rows, attributes, geometries, other tables copied, nothing of an old file survives.",
+   "Trusted: driver stub; reference uses snap.SnapPolygon of the same tree (C13 checks plumbing, not snapping).", "3/C13"),
+})
 PENDING = {}
 ALL = ["C01","C02","C03","C04","C18","C05","C06","C07","C08","C09","C10","C11","C12","C13","C14","C15","C16","C17"]
 
@@ -87,6 +95,7 @@ def main():
         "engines": [
             {"name": "snapmc", "path": "engine/cmd/snapmc", "serves_properties": ["C01","C02","C03","C04","C05","C06","C07","C08","C09","C18"], "kind_free_text": "process-sharded DFS over lattice inputs executing the real snap/pointindex code against exact reference models (engine/ref, engine/lat, engine/grid)"},
             {"name": "pipemc", "path": "engine/cmd/pipemc", "serves_properties": ["C10","C11"], "kind_free_text": "controlled scheduler (engine/sched) + stateless DFS with state-hash pruning and deviation bounding over the instrumented real processing package; instrumenter in /verif/instr, runtime injected by go build -overlay"},
+            {"name": "gpkgmc", "path": "engine/cmd/gpkgmc", "serves_properties": ["C12","C13"], "kind_free_text": "exhaustive lattices of writer runs / CLI invocations on real SQLite files (driver stub engine/spl, injected into the binary by overlay)"},
             {"name": "tmsmc", "path": "engine/cmd/tmsmc", "serves_properties": ["C14","C15","C16"], "kind_free_text": "exhaustive enumeration / explicit-state BFS over tile matrix set documents and their mutations on the real tms20, pointindex and main code"},
             {"name": "bitmc", "path": "engine/cmd/bitmc", "serves_properties": ["C17"], "kind_free_text": "exhaustive bit-pattern enumeration on the real code vs bit-loop reference"},
         ],
